@@ -310,11 +310,9 @@ Section IO.
 
   Definition strip_all (l : pyval) : res pyval :=
     match l with
-    | VList items | VTuple items =>
+    | VList items =>
         let* r := mapM (fun x => match x with VStr s => Ok (VStr (str_strip s)) | _ => Err MalformedRule end) items in Ok (VList r)
-    | VStr s => Err TypeError          (* item assignment on a str *)
-    | VDict _ => Err TypeError
-    | _ => Err TypeError
+    | _ => Err MalformedRule          (* description / examples must be lists *)
     end.
 
   Definition norm_doc (doc : option pyval) : res pyval :=
